@@ -4,6 +4,7 @@ import (
 	"fmt"
 	"go/constant"
 	"go/types"
+	"sort"
 	"strings"
 
 	"golang.org/x/tools/go/ssa"
@@ -33,11 +34,26 @@ type QInst struct {
 	Inst     string   // (=> range body) with Var free
 	Children []QInst  // positive universal quantifiers nested directly in the body
 	Consts   []string // extra instantiation terms (all values of a small constant range)
+	Kind     int      // kIdx: variable ranges over positions, kKey: over map keys, 0: any integer
+}
+
+// candsFor filters instantiation terms by the kind of the quantified variable
+func (q QInst) candsFor(cands []string, kinds map[string]int) []string {
+	if q.Kind == 0 {
+		return cands
+	}
+	var out []string
+	for _, c := range cands {
+		if k := kinds[c]; k == 0 || k&q.Kind != 0 {
+			out = append(out, c)
+		}
+	}
+	return out
 }
 
 // instantiate returns the instance of q at term c, in which every nested recorded quantifier is strengthened
 // by its own instances at the candidate terms (depth-limited)
-func (q QInst) instantiate(c string, cands []string, depth int, groundOnly bool) string {
+func (q QInst) instantiate(c string, cands []string, depth int, groundOnly bool, kinds map[string]int) string {
 	inst := strings.ReplaceAll(q.Inst, q.Var, c)
 	if depth <= 0 {
 		if groundOnly {
@@ -52,16 +68,16 @@ func (q QInst) instantiate(c string, cands []string, depth int, groundOnly bool)
 		if !strings.Contains(inst, chForall) {
 			continue
 		}
-		sub := QInst{Forall: chForall, Var: ch.Var, Inst: strings.ReplaceAll(ch.Inst, q.Var, c)}
+		sub := QInst{Forall: chForall, Var: ch.Var, Inst: strings.ReplaceAll(ch.Inst, q.Var, c), Kind: ch.Kind}
 		for _, g := range ch.Children {
-			sub.Children = append(sub.Children, QInst{Forall: strings.ReplaceAll(g.Forall, q.Var, c), Var: g.Var, Inst: strings.ReplaceAll(g.Inst, q.Var, c), Children: g.Children})
+			sub.Children = append(sub.Children, QInst{Forall: strings.ReplaceAll(g.Forall, q.Var, c), Var: g.Var, Inst: strings.ReplaceAll(g.Inst, q.Var, c), Children: g.Children, Kind: g.Kind})
 		}
 		parts := []string{chForall}
 		if groundOnly {
 			parts = nil
 		}
-		for _, c2 := range append(append([]string{}, cands...), ch.Consts...) {
-			parts = append(parts, sub.instantiate(c2, cands, depth-1, groundOnly))
+		for _, c2 := range append(append([]string{}, sub.candsFor(cands, kinds)...), ch.Consts...) {
+			parts = append(parts, sub.instantiate(c2, cands, depth-1, groundOnly, kinds))
 		}
 		inst = strings.Replace(inst, chForall, sAnd(parts...), 1)
 	}
@@ -562,8 +578,10 @@ func (fr *Frame) specQuant(q *EQuant, env *SpecEnv) Val {
 	var rng string
 	var vt types.Type = tInt
 	var consts []string
+	qkind := 0
 	switch q.Kind {
 	case "range":
+		qkind = kIdx
 		lo := fr.scalar(fr.evalSpec(q.Lo, env.unknownPol()))
 		hi := fr.scalar(fr.evalSpec(q.Hi, env.unknownPol()))
 		rng = sAnd(sApp("<=", lo, bv), sApp("<", bv, hi))
@@ -581,12 +599,17 @@ func (fr *Frame) specQuant(q *EQuant, env *SpecEnv) Val {
 			return fr.specErr("dom() of non-map")
 		}
 		vt = mp.Key()
+		qkind = kKey
 		rng = fr.mapPresent(fr.state(env), m.Typ, fr.scalar(m), bv)
 	case "int":
 		rng = "true"
 	}
 	benv := env.withBound(q.Var, Val{S: bv, Typ: vt})
 	if skolem {
+		if fc.skKind == nil {
+			fc.skKind = map[string]int{}
+		}
+		fc.skKind[bv] = qkind
 		body := fr.evalBool(q.Body, benv)
 		if q.All {
 			return Val{S: sImp(rng, body), Typ: tBool}
@@ -613,7 +636,7 @@ func (fr *Frame) specQuant(q *EQuant, env *SpecEnv) Val {
 			str = fmt.Sprintf("(forall ((%s Int)) %s)", bv, full)
 		}
 		if record {
-			*env.qs = append(*env.qs, QInst{Forall: str, Var: bv, Inst: full, Children: children, Consts: consts})
+			*env.qs = append(*env.qs, QInst{Forall: str, Var: bv, Inst: full, Children: children, Consts: consts, Kind: qkind})
 		}
 		return Val{S: str, Typ: tBool}
 	}
@@ -785,6 +808,9 @@ func (fr *Frame) specCall(c *ECall, env *SpecEnv) Val {
 			return Val{S: "u_" + c.Fn, Typ: t}
 		}
 		return Val{S: sApp("u_"+c.Fn, as...), Typ: t}
+	}
+	if fd, ok := fc.eng.cs.Folds[c.Fn]; ok {
+		return fr.specFold(fd, c, env)
 	}
 	// predicates
 	if p, ok := fc.eng.cs.Preds[c.Fn]; ok {
@@ -958,4 +984,132 @@ func splitSexpr(s string) []string {
 		out = append(out, s[start:])
 	}
 	return out
+}
+
+// specFold: name(args..., lo, hi) = op over i in [lo,hi) of elem(args..., i), evaluated in the current state.
+// The SMT term is an uninterpreted function of the heap versions the element expression reads, the arguments and
+// the bounds; each created term comes with its one-step unfolding (empty range, and last element split off).
+func (fr *Frame) specFold(fd *Fold, c *ECall, env *SpecEnv) Val {
+	fc := fr.fc
+	np := len(fd.Params) - 1
+	if len(c.Args) != np+2 {
+		return fr.specErr("fold %s expects %d arguments", fd.Name, np+2)
+	}
+	benv := *env
+	benv.bound = map[string]Val{}
+	for k, v := range env.bound {
+		benv.bound[k] = v
+	}
+	benv.vars = map[string]Val{}
+	var argTerms []string
+	for i := 0; i < np; i++ {
+		v := fr.evalSpec(c.Args[i], env)
+		benv.bound[fd.Params[i]] = v
+		argTerms = append(argTerms, fr.scalar(v))
+	}
+	for _, pk := range fc.eng.pkgs {
+		if pk.PkgPath == fd.Pkg {
+			benv.pkg = pk.Types
+		}
+	}
+	benv.header = nil
+	benv.nopol = true
+	benv.qs = nil
+	benv.sks = nil
+	lo := fr.scalar(fr.evalSpec(c.Args[np], env))
+	hi := fr.scalar(fr.evalSpec(c.Args[np+1], env))
+	ix := fd.Params[np]
+	elemAt := func(t string) string {
+		e2 := benv
+		e2.bound = map[string]Val{}
+		for k, v := range benv.bound {
+			e2.bound[k] = v
+		}
+		e2.bound[ix] = Val{S: t, Typ: tInt}
+		return fr.scalar(fr.evalSpec(fd.Elem, &e2))
+	}
+	// which heaps does the element expression read?
+	var rec []string
+	saved := fc.recording
+	fc.recording = &rec
+	last := elemAt(sApp("-", hi, "1"))
+	fc.recording = saved
+	seen := map[string]bool{}
+	var heaps []string
+	for _, h := range rec {
+		if !seen[h] && h != hAlloc {
+			seen[h] = true
+			heaps = append(heaps, h)
+		}
+	}
+	sort.Strings(heaps)
+	fname := "fold_" + fd.Name
+	var sorts []string
+	var hterms []string
+	st := fr.state(env)
+	for _, h := range heaps {
+		sorts = append(sorts, fc.sortOfVar(h))
+		hterms = append(hterms, fc.get(st, h))
+	}
+	key := "fun:" + fname
+	if !fc.declSet[key] {
+		fc.declSet[key] = true
+		fc.decls = append(fc.decls, fmt.Sprintf("(declare-fun %s (%s %s) Int)", fname, strings.Join(sorts, " "), strings.TrimSpace(strings.Repeat("Int ", np+2))))
+		fc.trusted["spec fold "+fd.Name+": "+fd.Src] = true
+	}
+	mk := func(a, b string) string {
+		all := append(append([]string{}, hterms...), argTerms...)
+		all = append(all, a, b)
+		return sApp(fname, all...)
+	}
+	t := mk(lo, hi)
+	// congruence with earlier terms of the same fold in other heap states: if the upper bounds agree, either
+	// some element differs (witness w) or the folds are equal
+	hkey := strings.Join(hterms, ",")
+	register := func(term, hiTerm string) {
+		if reBoundVar.MatchString(term) || fc.declSet["foldseen:"+term] {
+			return
+		}
+		fc.declSet["foldseen:"+term] = true
+		ck := fname + "|" + strings.Join(argTerms, ",")
+		for _, prev := range fc.foldTerms[ck] {
+			if prev.heaps == hkey {
+				continue
+			}
+			w := fc.freshConst("foldw", "Int")
+			e1 := prev.elemAt(w)
+			e2 := elemAt(w)
+			fc.permFact(sImp(sAnd(sEq(prev.lo, lo), sEq(prev.hi, hiTerm)), sOr(sAnd(sApp("<=", lo, w), sApp("<", w, hiTerm), sNot(sEq(e1, e2))), sEq(prev.term, term))))
+		}
+		if fc.foldTerms == nil {
+			fc.foldTerms = map[string][]foldRec{}
+		}
+		if len(fc.foldTerms[ck]) < 8 {
+			fc.foldTerms[ck] = append(fc.foldTerms[ck], foldRec{term: term, lo: lo, hi: hiTerm, heaps: hkey, elemAt: elemAt})
+		}
+	}
+	register(t, hi)
+	register(mk(lo, sApp("-", hi, "1")), sApp("-", hi, "1"))
+	if !reBoundVar.MatchString(t) && !fc.declSet["foldfact:"+t] {
+		fc.declSet["foldfact:"+t] = true
+		unit := "1"
+		var step string
+		prev := mk(lo, sApp("-", hi, "1"))
+		if fd.Op == "mul" {
+			step = fr.mulTerm(prev, last)
+		} else {
+			unit = "0"
+			step = sApp("+", prev, last)
+		}
+		fc.permFact(sAnd(sImp(sApp(">=", lo, hi), sEq(t, unit)), sImp(sApp("<", lo, hi), sEq(t, step))))
+	}
+	return Val{S: t, Typ: tInt}
+}
+
+type foldRec struct {
+	term   string
+	lo     string
+	hi     string
+	heaps  string
+	elemAt func(string) string
 }
